@@ -362,7 +362,7 @@ class DatesWorld(World):
         return self._gen_pure(actor, rng, "reversed")
 
     def _gen_copy(self, actor, rng):
-        return self._gen_pure(actor, rng, "copy")
+        return self._gen_pure(actor, rng, "copy", how=rng.choice(["copy", "copy", "deepcopy", "pickle"]))
 
     def _gen_from_ends(self, actor, rng):
         s = self._pick_span(rng, actor, lambda m: not m.contextual)
@@ -523,7 +523,7 @@ class DatesWorld(World):
         p = self._pick_period(rng)
         if p is None:
             return None
-        return {"op": "p_derive", "out": [self._name("p")], "args": {"p": p, "how": rng.choice(["add", "radd", "sub", "shift", "copy"]),
+        return {"op": "p_derive", "out": [self._name("p")], "args": {"p": p, "how": rng.choice(["add", "radd", "sub", "shift", "copy", "deepcopy", "pickle"]),
                                                                    "n": rng.choice([-13, -4, -1, 1, 2, 5, 12])}}
 
     def _gen_p_arith(self, actor, rng):
@@ -823,7 +823,14 @@ class DatesWorld(World):
         return out
 
     def _do_copy(self, step, a):
-        return self._pure(step, a, "copy", lambda m: m.copy(), lambda s: s.copy())
+        # every way of duplicating a span gives an equal, independent one (the result joins the population, so later
+        # in-place mutations of either side are watched by the isolation monitor)
+        how = a.get("how", "copy")
+        import copy as _cp
+        import pickle as _pk
+        call = {"copy": lambda s: s.copy(), "deepcopy": lambda s: _cp.deepcopy(s), "copy_module": lambda s: _cp.copy(s),
+                "pickle": lambda s: _pk.loads(_pk.dumps(s))}[how]
+        return self._pure(step, a, "copy" if how == "copy" else "copy." + how, lambda m: m.copy(), call)
 
     def _do_from_ends(self, step, a):
         real, m = self.spans[a["s"]]
@@ -1114,7 +1121,9 @@ class DatesWorld(World):
             if not cal.valid_serial(f, s + n) or not cal.valid_serial(f, s - n):
                 return "skipped"
             table = {"add": (lambda: p + n, s + n), "radd": (lambda: n + p, s + n), "sub": (lambda: p - n, s - n),
-                     "shift": (lambda: p.shift(n), s + n), "copy": (lambda: p.copy(), s)}
+                     "shift": (lambda: p.shift(n), s + n), "copy": (lambda: p.copy(), s),
+                     "deepcopy": (lambda: __import__("copy").deepcopy(p), s),
+                     "pickle": (lambda: __import__("pickle").loads(__import__("pickle").dumps(p)), s)}
             thunk, want = table[how]
             q = self._guard("p_derive." + how, f, thunk)
         if letter(q) != f or int(q.serial) != want:
